@@ -80,7 +80,9 @@ func (f *SlotMissing) Call(s *slip.Scope, args slip.List, depth int) slip.Object
 type defaultSlotMissingCaller struct{}
 
 func (defaultSlotMissingCaller) Call(s *slip.Scope, args slip.List, depth int) slip.Object {
-	slip.CheckArgCount(s, depth, args[3], args, 4, 5)
+	if len(args) < 4 || 5 < len(args) {
+		slip.ErrorPanic(s, depth, "Wrong number of arguments to slot-missing. 4 or 5 expected but got %d.", len(args))
+	}
 	var cond slip.Object
 	// Ignore class as it is not used in forming the error message.
 	slotName, ok := args[2].(slip.Symbol)
